@@ -259,10 +259,20 @@ class Ctx:
             if ext in ("os.remove", "os.unlink") and s.node.args and _is_self_attr(s.node.args[0], fn, "_filename"):
                 eff.add("RESULT_WRITE")
                 eff.add("RESULT_DELETE")
+            if ext == "os.truncate" and s.node.args and _is_self_attr(s.node.args[0], fn, "_filename"):
+                eff.add("RESULT_WRITE")
+                eff.add("RESULT_EMPTY")
+            wx = getattr(s, "wrapped_external", None)
+            if wx in ("os.remove", "os.unlink", "os.truncate") and s.wrapped_args and _is_self_attr(s.wrapped_args[0], fn, "_filename"):
+                eff.add("RESULT_WRITE")
+                eff.add("RESULT_DELETE" if wx != "os.truncate" else "RESULT_EMPTY")
+                eff.add("OWN_HOLD")
             if isinstance(s.node.func, ast.Attribute) and s.node.func.attr in ("unlink", "write_text", "write_bytes", "rename", "replace") and _is_self_attr(s.node.func.value, fn, "_filename"):
                 eff.add("RESULT_WRITE")
                 if s.node.func.attr == "unlink":
                     eff.add("RESULT_DELETE")
+            if isinstance(s.node.func, ast.Attribute) and s.node.func.attr == "truncate" and isinstance(s.node.func.value, ast.Name):
+                pass  # f.truncate() on an open handle: covered by the open() mode
         self._site_eff[id(s)] = eff
         return eff
 
@@ -417,6 +427,8 @@ class Ctx:
         locked-only for L (or is itself one of the wrappers' bodies calling func)."""
         if self._locked is not None:
             return self._locked
+        if self.cg.unresolved_wrappers:
+            raise AnalysisError("lock context", "; ".join(self.cg.unresolved_wrappers))
         fns = self.ix.functions
         locked = {}
         for lock in ("cluster", "results"):
